@@ -284,4 +284,14 @@ EncodeHost(host, validate) ==
   ELSE IF IsAscii(host) THEN
        (LET low == LowerS(host) IN IF validate /\ ~RegNameOkFrom(low, 1) THEN EXC("ValueError") ELSE OK(low))
   ELSE [gray |-> TRUE]
+
+\* --------------------------------------------------- _quoters.human_quote / URL.human_repr (component level)
+\* `nonprintable`: the code points str.isprintable() rejects (environment data; a CONSTANT set in the models)
+HumanQuote(s, unsafe, nonprintable) ==
+  LET s1 == Flat([i \in 1..Len(s) |-> IF s[i] = PCT \/ s[i] \in unsafe THEN PctEnc(s[i]) ELSE <<s[i]>>]) IN
+  IF \A i \in 1..Len(s1) : s1[i] \notin nonprintable THEN s1
+  ELSE Flat([i \in 1..Len(s1) |-> IF s1[i] \in nonprintable THEN PctUtf8(s1[i]) ELSE <<s1[i]>>])
+UserinfoUnsafe == {HASH, SLASH, COLON, QMARK, AT, LBR, RBR}
+PathUnsafe     == {HASH, QMARK}
+QueryUnsafe    == {HASH, AMP, PLUS, SEMI, EQ}
 =============================================================================
